@@ -560,6 +560,11 @@ def bld_pred(which):
                 paused = True
             elif op == "R":
                 paused = False
+            elif op[0] == "Q":
+                # commands issued back to back take effect in order: the last one decides; a dispatch during the burst is legitimate
+                # iff the burst contains a Resume
+                burst_resumes = "R" in op[1:]
+                paused = op[-1] == "P"
             elif op[0] == "+":
                 backoff = False
             for (c, call, w) in served:
@@ -574,7 +579,7 @@ def bld_pred(which):
                     if w >= W:
                         return "step %d (%s): connection %d served by worker %d of %d" % (k, op, c, w, W)
                 served_at.setdefault(c, k)
-                if "C05" in which and paused and op != "R":
+                if "C05" in which and paused and op != "R" and not (op[0] == "Q" and burst_resumes):
                     return "step %d (%s): connection %d dispatched while the server was paused" % (k, op, c)
             if faulted:
                 continue       # C02/C03/C04 speak about runs without a worker fault
@@ -582,7 +587,7 @@ def bld_pred(which):
                 return "step %d (%s): in progress per worker %s, limit %d" % (k, op, act, L)
             pending = [c for c in tok_of if c not in served_at]
             if pending and not paused and not backoff and op[0] != "E" and any(a < L for a in act[:W]) and len(act) >= W:
-                if "C03" in which or ("C05" in which and op in ("R",) or "C05" in which and op[0] == "+"):
+                if "C03" in which or ("C05" in which and (op == "R" or op[0] in "+Q")):
                     return "step %d (%s): connection(s) %s wait although the server runs and in progress per worker is %s with limit %d" % (
                         k, op, pending, act, L)
             if "C04" in which and served:
